@@ -50,6 +50,40 @@ Theorem c14_own_file_length : forall fn name, own_file fn name -> length name = 
 Proof. exact own_file_shape. Qed.
 Print Assumptions c14_own_file_length.
 
+(* ---- histories: several passes of one appender, the world changing entries in between ---- *)
+(* each pass judges every entry by what it is at that pass *)
+Theorem c14_pass_judges_current_state : forall fn age dir p e,
+  In e (pass fn age dir p) <-> In e (apply_updates dir (ph_set p)) /\ ~ must_delete fn age (ph_now p) e.
+Proof. exact pass_exact. Qed.
+Print Assumptions c14_pass_judges_current_state.
+
+Theorem c14_history_touched_young_survives : forall fn age dir ps p e,
+  In e (ph_set p) -> ph_now p - age * 3600 <= de_mtime e -> In e (run_phases fn age dir (ps ++ [p])).
+Proof. exact history_touched_young_survives. Qed.
+Print Assumptions c14_history_touched_young_survives.
+
+Theorem c14_history_untouched_kept : forall fn age ps dir e,
+  In e dir ->
+  (forall p, In p ps -> named (de_name e) (ph_set p) = false /\ ~ must_delete fn age (ph_now p) e) ->
+  In e (run_phases fn age dir ps).
+Proof. exact history_untouched_kept. Qed.
+Print Assumptions c14_history_untouched_kept.
+
+Theorem c14_history_no_invention : forall fn age ps dir e,
+  In e (run_phases fn age dir ps) -> In e dir \/ exists p, In p ps /\ In e (ph_set p).
+Proof. exact history_no_invention. Qed.
+Print Assumptions c14_history_no_invention.
+
+(* non-vacuity: a file young at the first pass, touched, and past its FIRST mtime's expiry at the second pass - it stays *)
+Example c14_history_ex :
+  let fn := [97;112;112]%N in
+  let ts := [50;48;50;53;48;49;48;49;48;48;48;48;48;48]%N in
+  let f0 := {| de_name := fn ++ [dot] ++ ts; de_kind := 0; de_mtime := -3598 |} in
+  let f1 := {| de_name := fn ++ [dot] ++ ts; de_kind := 0; de_mtime := 1 |} in
+  run_phases fn 1 [f0] [ {| ph_now := 0; ph_set := [] |}; {| ph_now := 5; ph_set := [f1] |} ] = [f1]
+  /\ run_phases fn 1 [f0] [ {| ph_now := 0; ph_set := [] |}; {| ph_now := 5; ph_set := [] |} ] = [].
+Proof. vm_compute. split; reflexivity. Qed.
+
 (* non-vacuity: app.log with an old own file, a young own file, app.log.bak, app.log.wf.<ts>, a directory *)
 Example c14_ex :
   let fn := [97;112;112]%N in
